@@ -143,6 +143,7 @@ class Run:
         self.h.update(repr(sorted((h, obs(o)) for h, o in w.heap.items()
                                   if _heapish(o) or isinstance(o, list))).encode())
         self.h.update(repr(sorted((w.rel(p), bytes(d)) for p, d in w.fs.files.items())).encode())
+        self.h.update(repr(sorted(w.rel(d) for d in w.fs.dirs if d.startswith(w.ns))).encode())
         self.stats["fs_opens"] += w.fs.opens
         for k, v in w.fs.fault_counts.items():
             self.stats["fault:X-io:" + k] += v
